@@ -13,7 +13,8 @@ from ..vloop import VLoop
 
 THEOREMS = ["C20_wait_ends_cleanly", "C20_invariant_everywhere", "C20_wait_timer_ends", "C20_duplicate_match_is_noop",
             "C20_old_timeout_refuted", "C20_now_timeout_clean", "C20_no_loop_exceptions", "C20_old_repeat_refuted",
-            "C20_phases_exclusive", "C20_offer_is_not_confirm"]
+            "C20_phases_exclusive", "C20_offer_is_not_confirm", "C20_abandon_leaves_no_timer", "C20_abandon_ends_binding",
+            "C20_retry_is_fresh", "C20_wrong_abandon_order_refuted", "C20_right_abandon_order_witness"]
 
 PRELUDE = ("From Coq Require Import List Bool Arith.\nFrom RV Require Import M_Bind.\nImport ListNotations.\n"
            "Set Printing Width 1000000.\nSet Printing Depth 1000000.\n"
@@ -122,6 +123,131 @@ def scn_to_coq(scn) -> str:
     return f"show (run true {'true' if has_st else 'false'} [" + "; ".join(groups) + "])"
 
 
+def run_attempts(scn):
+    """Two attempts on ONE real context: the first is given up (its task cancelled, as a caller's wait_for does) or times out by
+    itself, the second follows; wait_for_binding_request itself is driven, so its except clauses and _abandon_binding run."""
+    import ramses_rf.binding_fsm as B  # noqa: PLC0415
+    from ramses_rf import exceptions as exc  # noqa: PLC0415
+
+    loop = VLoop(lifo=False)
+    asyncio.set_event_loop(loop)
+    errs, res = [], {}
+    loop.set_exception_handler(lambda lp, c: errs.append(type(c.get("exception")).__name__))
+
+    async def main():
+        class D(Dev):
+            async def _async_send_cmd(self, cmd, priority=None, qos=None):   # the accept is being sent: the wait for the offer succeeded
+                res[self.tag] = [1, 1 if type(ctx.state).__name__ == "RespSendAcceptWaitForConfirm" else 7]
+                await asyncio.Future()
+
+        dev = D("01:111111")
+        ctx = B.BindContext(dev)
+        offer, other = mk_msgs()
+
+        async def attempt(tag):
+            dev.tag = tag
+            try:
+                await ctx.wait_for_binding_request(["1260"])
+            except exc.BindingFlowFailed:
+                res[tag] = [2, 2 if type(ctx.state).__name__ == "DevHasFailedBinding" else (0 if ctx.is_binding else 7)]
+            except exc.BindingFsmError:
+                res[tag] = [4, 0]
+
+        def deliver(m):
+            if ctx.is_binding:
+                ctx.rcvd_msg(m)
+
+        tasks = {}
+        loop.call_at(0.0, lambda: tasks.__setitem__(1, loop.create_task(attempt(1))))
+        if scn["abandon_at"] is not None:
+            loop.call_at(scn["abandon_at"], lambda: tasks[1].cancel())
+        loop.call_at(scn["retry_at"], lambda: tasks.__setitem__(2, loop.create_task(attempt(2))))
+        for t, k in scn["msgs"]:
+            loop.call_at(t, deliver, offer if k == "match" else other)
+        await asyncio.sleep(scn["retry_at"] + 6)
+        res["binding_end"] = ctx.is_binding
+        for t in tasks.values():
+            t.cancel()
+        await asyncio.sleep(0)
+
+    try:
+        loop.run_until_complete(main())
+    finally:
+        asyncio.set_event_loop(None)
+        loop.close()
+    return res.get(2, [0, 0]), res, errs
+
+
+def attempts_to_coq(scn) -> str:
+    evs = [(0.0, "AWait EStart")]
+    t1, t2 = scn["abandon_at"], scn["retry_at"]
+    if t1 is not None:
+        evs += [(t1, "AAbandon"), (5.1, "AStale")]
+    else:
+        evs += [(5.0, "AWait EWaitTimer"), (5.1, "AWait EStateTimer")]
+    evs += [(t2, "ANew true; AWait EStart"), (t2 + 5.0, "AWait EWaitTimer"), (t2 + 5.1, "AWait EStateTimer")]
+    evs += [(t, "AWait EMatch" if k == "match" else "AWait EOther") for t, k in scn["msgs"]]
+    evs.sort(key=lambda e: e[0])
+    return "showa (arun true true [" + "; ".join("[" + e[1] + "]" for e in evs) + "])"
+
+
+def gen_attempts(rng):
+    while True:
+        t1 = rng.choice([None, G, 0.5, 1.0, 3.0, 4.5])
+        t2 = (t1 if t1 is not None else 5.25) + rng.choice([2 * G, 0.5, 1.0, 2.0])
+        msgs = []
+        for _ in range(rng.choice([0, 1, 1, 2, 3])):
+            kind = rng.choice(["match", "match", "other"])
+            t = rng.choice([t2 + 3 * G, t2 + 1.0, 5.1 - 3 * G, 5.1 + 3 * G, t2 + 5.0 - 3 * G, t2 + 4.0, 0.25, t2 - G])
+            if kind == "match" and t < t2 and t1 is None:
+                kind = "other"     # an offer during a first attempt that is not given up would complete it: outside this model
+            if kind == "match" and t1 is not None and t < t1:
+                kind = "other"
+            msgs.append((t, kind))
+        special = {0.0, 5.0, 5.1, t1, t2, t2 + 5.0, t2 + 5.1}
+        times = [t for t, _ in msgs]
+        if not (set(times) & special) and len(set(times)) == len(times):   # no two events in one loop iteration
+            return {"abandon_at": t1, "retry_at": t2, "msgs": sorted(msgs)}
+
+
+def attempts_correspondence(ctx: Ctx, built: bool, n: int) -> None:
+    rng = ctx.rng
+    scns = [{"abandon_at": 1.0, "retry_at": 1.5, "msgs": [(5.4, "match")]},      # given up at 1 s, retried at 1.5 s, the offer comes after the old timer's due time
+            {"abandon_at": G, "retry_at": 3 * G, "msgs": [(5.1 + G, "match")]},
+            {"abandon_at": 4.5, "retry_at": 5.0 - G, "msgs": [(5.1 + 3 * G, "match")]},
+            {"abandon_at": None, "retry_at": 5.5, "msgs": [(6.0, "match")]},
+            {"abandon_at": 1.0, "retry_at": 1.5, "msgs": []}]
+    scns += [gen_attempts(rng) for _ in range(n)]
+    impl = []
+    for s in scns:
+        row, res, errs = run_attempts(s)
+        impl.append(row)
+        ctx.case(("attempts", s["abandon_at"], s["retry_at"], tuple(s["msgs"])), True, "attempts:" + ("given-up" if s["abandon_at"] is not None else "timed-out"))
+        offered = [t for t, k in s["msgs"] if k == "match" and s["retry_at"] < t < s["retry_at"] + 5.0]
+        case = {**s, "second_attempt": {0: "never ended", 1: "offer received, accept being sent", 2: "BindingFlowFailed", 4: "BindingFsmError (still binding)"}[row[0]],
+                "loop_exceptions": errs}
+        if offered and row[0] != 1:
+            ctx.violation("retried-attempt-misses-its-offer", "a new attempt, started after the previous one was given up or had failed, did not take the offer that arrived within its wait",
+                          case, "schedule")
+        if not offered and row[0] != 2:
+            ctx.violation("retried-attempt-does-not-end", "a new attempt without an offer did not end with BindingFlowFailed", case, "schedule")
+    if not built:
+        ctx.obligation("correspondence:attempts", False, "correspondence", "model not built")
+        return
+    pre = PRELUDE.replace("M_Bind.", "M_Bind M_BindAttempts.") + (
+        "Definition showa (c : ctxw) : list nat := [match b_w (c_cur c) with Done OkMsg => 1 | Done FlowFailed => 2 | Done InvalidState => 3 | _ => 0 end;\n"
+        "  match b_ctx (c_cur c) with CWaiting => 0 | CNext => 1 | CFailed => 2 end].\n")
+    rc, out = common.coq_eval("C20att", {"x": pre + "".join(f"Eval vm_compute in ({attempts_to_coq(s)}).\n" for s in scns)}, timeout=300)["x"]
+    if rc:
+        ctx.obligation("correspondence:attempts", False, "correspondence", out[-400:])
+        return
+    rows = [eval(o.replace(";", ","), {"__builtins__": {}}) for o in re.findall(r"=\s*(\[.*?\])\s*:\s*list nat", out, flags=re.S)]  # noqa: S307
+    bad = [i for i, (a, b) in enumerate(zip(rows, impl)) if list(a) != list(b)]
+    ctx.obligation("correspondence:attempts", not bad and len(rows) == len(impl), "correspondence",
+                   f"{len(bad)} of {len(impl)} differ; first: {scns[bad[0]]} model {rows[bad[0]]} implementation {impl[bad[0]]}" if bad or len(rows) != len(impl)
+                   else f"{len(impl)} two-attempt histories on one real context agree (outcome of the second attempt, context state)")
+
+
 def gen_wait(rng):
     kind = rng.choice(["offer", "offer", "echo"])
     start = rng.choice([0.0, 0.0, G, 0.5])
@@ -181,6 +307,7 @@ def run(ctx: Ctx) -> None:
                            f"{len(bad)} of {len(impl)} differ; first: {scns[bad[0]]} model {rows[bad[0]]} implementation {impl[bad[0]]}" if bad else "")
     else:
         ctx.obligation("correspondence:wait-step", False, "correspondence", "model not built")
+    attempts_correspondence(ctx, built, 120 if thorough else 40)
     phase_correspondence(ctx, built)
     handshakes(ctx, 150 if thorough else 40)
 
@@ -241,7 +368,21 @@ def handshakes(ctx: Ctx, n: int) -> None:
                 "fail_send": rng.choice([None, None, None, None, "offer", "accept", "confirm"]),
                 "third_party": rng.choice([None, None, "offer-self", "offer-all", "offer-all", "accept"]),
                 "third_party_at": rng.choice([0.1, 0.2 + G, 0.2 + 3 * G, 0.2 + 0.5 + G, 1.3]), "lifo": rng.random() < 0.3,
-                "resp_late": rng.choice([0.0, 0.0, 1.0, 4.9])}
+                "resp_late": rng.choice([0.0, 0.0, 1.0, 4.9]),
+                # the caller of one end gives up (cancels its attempt) at this time; the retry follows after this gap
+                "give_up": rng.choice([None, None, None, ("resp", 0.1), ("resp", 1.0), ("supp", 0.2 + G), ("supp", 1.0), ("resp", 4.0)]),
+                "retry_gap": rng.choice([6.0, 6.0, 0.0, 0.5, 2.0, 4.0])}
+        if plan["third_party"]:
+            plan["retry_gap"] = 6.0    # the neighbours' pairing must be over before the retry: "a new, undisturbed attempt"
+        if trial < 6:   # first: an end that gives up early and retries at once, the peer's offer arriving late in the new wait
+            plan.update({"lose": ["offer", "offer", "accept", "offer", "accept", "offer"][trial], "fail_send": None, "third_party": None, "resp_late": 0.0, "repeat": 1,
+                         "give_up": [("resp", 1.0), ("resp", 0.1), ("supp", 1.0), ("resp", 1.0), ("supp", 0.2 + G), ("resp", 4.0)][trial],
+                         "retry_gap": [0.5, 0.0, 2.0, 2.0, 2.5, 0.0][trial], "solo": True})
+            # the peer joins late in the retried attempt: after the moment the abandoned state's 5.1 s timer would have fired, within the new wait
+            if plan["give_up"][0] == "resp":
+                plan["late_2nd"] = ("supp", 3.9)
+            else:     # the respondent listens from the start of the retry; every frame of the retry takes 2.4 s to get through
+                plan["delay_2nd"] = 2.4
         loop = VLoop(lifo=plan["lifo"])
         asyncio.set_event_loop(loop)
         errs = []
@@ -282,21 +423,34 @@ def handshakes(ctx: Ctx, n: int) -> None:
 
             async def attempt(tag):
                 async def resp():
-                    await asyncio.sleep(plan["resp_late"] if tag == 1 else 0)
+                    if tag == 1 and plan.get("solo") and plan["give_up"][0] != "resp":
+                        return ("absent", None)
+                    await asyncio.sleep(plan["resp_late"] if tag == 1 else (plan["late_2nd"][1] if plan.get("late_2nd", ("", 0))[0] == "resp" else 0))
                     try:
                         return ("ok", await ctxs[r_dev.id].wait_for_binding_request(["1260"]))
                     except Exception as err:  # noqa: BLE001
                         return ("exc", err)
 
                 async def supp():
-                    await asyncio.sleep(0.2)
+                    if tag == 1 and plan.get("solo") and plan["give_up"][0] != "supp":
+                        return ("absent", None)
+                    await asyncio.sleep(0.2 if tag == 1 else (plan["late_2nd"][1] if plan.get("late_2nd", ("", 0))[0] == "supp" else 0.2))
                     try:
                         return ("ok", await ctxs[s_dev.id].initiate_binding_process(["1260"]))
                     except Exception as err:  # noqa: BLE001
                         return ("exc", err)
 
+                async def limited(role, coro):
+                    gu = plan["give_up"]
+                    if tag != 1 or not gu or gu[0] != role:
+                        return await coro
+                    try:
+                        return await asyncio.wait_for(coro, gu[1])
+                    except TimeoutError:
+                        return ("gave-up", None)
+
                 t0 = loop.time()
-                r, s = await asyncio.gather(resp(), supp())
+                r, s = await asyncio.gather(limited("resp", resp()), limited("supp", supp()))
                 return r, s, loop.time() - t0
 
             if plan["third_party"]:   # another pairing going on nearby: every binding device sees its offers (dispatcher routing)
@@ -309,10 +463,11 @@ def handshakes(ctx: Ctx, n: int) -> None:
                 for k in range(3):
                     loop.call_later(plan["third_party_at"] + plan["delay"] * k, lambda: [c.rcvd_msg(stray) for c in ctxs.values() if c.is_binding and offers_only])
             out["first"] = await attempt(1)
-            await asyncio.sleep(6)   # any state timer has expired by now
+            out["binding_at_end"] = {k: c.is_binding for k, c in ctxs.items()}
+            await asyncio.sleep(plan["retry_gap"])   # 6 s: any state timer has expired by now; shorter: a retry at once
             out["binding_after"] = {k: c.is_binding for k, c in ctxs.items()}
             saved = dict(plan)
-            plan.update({"lose": None, "fail_send": None, "repeat": 1, "resp_late": 0.0})
+            plan.update({"lose": None, "fail_send": None, "repeat": 1, "resp_late": 0.0, "delay": plan.get("delay_2nd", plan["delay"])})
             out["second"] = await attempt(2)
             plan.update(saved)
             await asyncio.sleep(6)
@@ -327,9 +482,11 @@ def handshakes(ctx: Ctx, n: int) -> None:
             loop.close()
         ctx.case(("handshake", repr(plan)), True, "handshake:" + ("clean" if not plan["lose"] and not plan["fail_send"] else "faulty"))
         (r, s, dur) = out["first"]
-        case = {"plan": plan, "respondent": r[0] if r[0] == "ok" else type(r[1]).__name__, "supplicant": s[0] if s[0] == "ok" else type(s[1]).__name__,
+        case = {"plan": plan, "respondent": r[0] if r[0] != "exc" else type(r[1]).__name__, "supplicant": s[0] if s[0] != "exc" else type(s[1]).__name__,
                 "duration_s": dur, "loop_exceptions": errs}
         clean = not plan["lose"] and not plan["fail_send"] and plan["resp_late"] < 0.2   # the respondent listens before the offer
+        gave_up = r[0] in ("gave-up", "absent") or s[0] in ("gave-up", "absent")
+        clean = clean and not gave_up
         if plan["third_party"] and plan["third_party"].startswith("offer") and plan["third_party_at"] <= 0.2 + plan["delay"] + G:
             clean = False   # a respondent legitimately takes the first offer it hears: the third party's came first
         for role, res in (("respondent", r), ("supplicant", s)):
@@ -350,6 +507,9 @@ def handshakes(ctx: Ctx, n: int) -> None:
                                   {**case, "respondent_tuple": [str(x) for x in rt[:3]], "supplicant_tuple": [str(x) for x in st[:3]]}, "schedule")
         if dur > 25:
             ctx.violation("attempt-not-bounded", "a binding attempt took longer than its stated waits allow", case, "schedule")
+        if any(out["binding_at_end"].values()):
+            ctx.violation("still-binding-when-attempt-ended", "an attempt ended (result, error or the caller gave up) and the device is still binding",
+                          {**case, "binding": out["binding_at_end"]}, "schedule")
         if any(out["binding_after"].values()):
             ctx.violation("still-binding-after-attempt", "after an attempt ended (and all timers expired) a device is still binding", {**case, "binding": out["binding_after"]}, "schedule")
         r2, s2, _ = out["second"]
